@@ -43,6 +43,7 @@ type MField struct {
 	V     []byte   `json:"v,omitempty"`
 	St    bool     `json:"st,omitempty"`
 	DV    bool     `json:"dv,omitempty"`
+	Len   int      `json:"len,omitempty"` // Length() of an instance WITHOUT terms (used by one C01 shape only)
 }
 
 func (f *MField) Name() string { return f.N }
@@ -50,6 +51,9 @@ func (f *MField) Name() string { return f.N }
 // Length is the sum of the term frequencies of this field instance, as
 // Bluge's analyzers guarantee (input contract of C16).
 func (f *MField) Length() int {
+	if len(f.Terms) == 0 && f.Len > 0 { // a field instance all of whose tokens were dropped by the analyzer but which still reports a length
+		return f.Len
+	}
 	n := 0
 	for _, t := range f.Terms {
 		n += t.F
